@@ -1,6 +1,6 @@
 (* extraction of the C03 executable models (edit primitive, cache re-basing, span.rs, LintGroup::lint over the adversarial cache and over the real LRU with the capacity read from lint_group.rs); ExtrOcamlBasic only *)
 Require Extraction.
 Require Import ExtrOcamlBasic.
-Require Import Base Suggestion Rebase Cache C03Span C03LintGroup C05Lru C03LintGroupLru Tables_c03cache C03Roots Tables_c03roots.
+Require Import Base Suggestion Rebase Cache C03Span C03LintGroup C05Lru C03LintGroupLru Tables_c03cache C03Roots Tables_c03roots C03StructRoots Tables_c03structroots.
 Extraction Language OCaml.
-Extraction "../ocaml/gen/c03_model.ml" run_apply run_rebase run_span_op run_lg_lint run_lg_set_cfg lg_fresh run_lg_lint_lru lint_group_cache_cap run_rule_span pattern_rule_lint_asts.
+Extraction "../ocaml/gen/c03_model.ml" run_apply run_rebase run_span_op run_lg_lint run_lg_set_cfg lg_fresh run_lg_lint_lru lint_group_cache_cap run_rule_span pattern_rule_lint_asts run_struct_rule_span struct_rule_srcs.
